@@ -200,6 +200,8 @@ Inductive flush_choice := FSend | FDefault | FAnswered | FFailed | FCtx.
 Record cstate := {
   cfg_mode : mode;
   cfg_manual : bool;          (* both endpoints in no-watch mode *)
+  cfg_fixed : bool;           (* controller.reset refuses a disabled controller (the code since the
+                                 repair of the Reset/Terminate overlap); false = the code as it was *)
   created : bool;
   present : bool;             (* the manager's session map holds the controller *)
   mgr_up : bool;              (* false after Manager.Shutdown until NewManager *)
@@ -215,54 +217,59 @@ Record cstate := {
   tid_bound : nat             (* thread identifiers are never reused *)
 }.
 
-Definition init_state (m : mode) (manual : bool) : cstate :=
-  {| cfg_mode := m; cfg_manual := manual; created := false; present := false; mgr_up := true;
+Definition init_state_gen (fixed : bool) (m : mode) (manual : bool) : cstate :=
+  {| cfg_mode := m; cfg_manual := manual; cfg_fixed := fixed; created := false; present := false; mgr_up := true;
      disabled := false; loop := None; sess_file := None; arch_file := None;
      arch_ver := 0; status := 0; threads := []; answered := []; next_gen := 0; tid_bound := 0 |}.
 
+(* the code as it is *)
+Definition init_state (m : mode) (manual : bool) : cstate := init_state_gen true m manual.
+(* the code before controller.reset checked c.disabled *)
+Definition init_state_unfixed (m : mode) (manual : bool) : cstate := init_state_gen false m manual.
+
 Definition st_with_loop (st : cstate) (l : option loopst) : cstate :=
-  {| cfg_mode := cfg_mode st; cfg_manual := cfg_manual st; created := created st; present := present st;
+  {| cfg_mode := cfg_mode st; cfg_manual := cfg_manual st; cfg_fixed := cfg_fixed st; created := created st; present := present st;
      mgr_up := mgr_up st; disabled := disabled st; loop := l; sess_file := sess_file st;
      arch_file := arch_file st; arch_ver := arch_ver st; status := status st; threads := threads st;
      answered := answered st; next_gen := next_gen st; tid_bound := tid_bound st |}.
 Definition st_with_status (st : cstate) (s : nat) : cstate :=
-  {| cfg_mode := cfg_mode st; cfg_manual := cfg_manual st; created := created st; present := present st;
+  {| cfg_mode := cfg_mode st; cfg_manual := cfg_manual st; cfg_fixed := cfg_fixed st; created := created st; present := present st;
      mgr_up := mgr_up st; disabled := disabled st; loop := loop st; sess_file := sess_file st;
      arch_file := arch_file st; arch_ver := arch_ver st; status := s; threads := threads st;
      answered := answered st; next_gen := next_gen st; tid_bound := tid_bound st |}.
 Definition st_with_threads (st : cstate) (ths : list thread) : cstate :=
-  {| cfg_mode := cfg_mode st; cfg_manual := cfg_manual st; created := created st; present := present st;
+  {| cfg_mode := cfg_mode st; cfg_manual := cfg_manual st; cfg_fixed := cfg_fixed st; created := created st; present := present st;
      mgr_up := mgr_up st; disabled := disabled st; loop := loop st; sess_file := sess_file st;
      arch_file := arch_file st; arch_ver := arch_ver st; status := status st; threads := ths;
      answered := answered st; next_gen := next_gen st; tid_bound := tid_bound st |}.
 Definition st_with_sess (st : cstate) (s : option bool) : cstate :=
-  {| cfg_mode := cfg_mode st; cfg_manual := cfg_manual st; created := created st; present := present st;
+  {| cfg_mode := cfg_mode st; cfg_manual := cfg_manual st; cfg_fixed := cfg_fixed st; created := created st; present := present st;
      mgr_up := mgr_up st; disabled := disabled st; loop := loop st; sess_file := s;
      arch_file := arch_file st; arch_ver := arch_ver st; status := status st; threads := threads st;
      answered := answered st; next_gen := next_gen st; tid_bound := tid_bound st |}.
 Definition st_with_arch (st : cstate) (a : option oentry) : cstate :=
-  {| cfg_mode := cfg_mode st; cfg_manual := cfg_manual st; created := created st; present := present st;
+  {| cfg_mode := cfg_mode st; cfg_manual := cfg_manual st; cfg_fixed := cfg_fixed st; created := created st; present := present st;
      mgr_up := mgr_up st; disabled := disabled st; loop := loop st; sess_file := sess_file st;
      arch_file := a; arch_ver := S (arch_ver st); status := status st; threads := threads st;
      answered := answered st; next_gen := next_gen st; tid_bound := tid_bound st |}.
 Definition st_with_answered (st : cstate) (l : list tid) : cstate :=
-  {| cfg_mode := cfg_mode st; cfg_manual := cfg_manual st; created := created st; present := present st;
+  {| cfg_mode := cfg_mode st; cfg_manual := cfg_manual st; cfg_fixed := cfg_fixed st; created := created st; present := present st;
      mgr_up := mgr_up st; disabled := disabled st; loop := loop st; sess_file := sess_file st;
      arch_file := arch_file st; arch_ver := arch_ver st; status := status st; threads := threads st;
      answered := l; next_gen := next_gen st; tid_bound := tid_bound st |}.
 (* registration flags: created, present, mgr_up, disabled *)
 Definition st_with_flags (st : cstate) (cr pr up dis : bool) : cstate :=
-  {| cfg_mode := cfg_mode st; cfg_manual := cfg_manual st; created := cr; present := pr;
+  {| cfg_mode := cfg_mode st; cfg_manual := cfg_manual st; cfg_fixed := cfg_fixed st; created := cr; present := pr;
      mgr_up := up; disabled := dis; loop := loop st; sess_file := sess_file st;
      arch_file := arch_file st; arch_ver := arch_ver st; status := status st; threads := threads st;
      answered := answered st; next_gen := next_gen st; tid_bound := tid_bound st |}.
 Definition st_with_bound (st : cstate) (b : nat) : cstate :=
-  {| cfg_mode := cfg_mode st; cfg_manual := cfg_manual st; created := created st; present := present st;
+  {| cfg_mode := cfg_mode st; cfg_manual := cfg_manual st; cfg_fixed := cfg_fixed st; created := created st; present := present st;
      mgr_up := mgr_up st; disabled := disabled st; loop := loop st; sess_file := sess_file st;
      arch_file := arch_file st; arch_ver := arch_ver st; status := status st; threads := threads st;
      answered := answered st; next_gen := next_gen st; tid_bound := b |}.
 Definition st_with_gen (st : cstate) (g : nat) : cstate :=
-  {| cfg_mode := cfg_mode st; cfg_manual := cfg_manual st; created := created st; present := present st;
+  {| cfg_mode := cfg_mode st; cfg_manual := cfg_manual st; cfg_fixed := cfg_fixed st; created := created st; present := present st;
      mgr_up := mgr_up st; disabled := disabled st; loop := loop st; sess_file := sess_file st;
      arch_file := arch_file st; arch_ver := arch_ver st; status := status st; threads := threads st;
      answered := answered st; next_gen := g; tid_bound := tid_bound st |}.
@@ -788,6 +795,9 @@ Definition acquire_step (st : cstate) (th : thread) : option (cstate * list even
            | None => Some (resume_tail st t)
            end
     | CReset =>
+      (* reset: "controller disabled" first (since the repair), then running := c.cancel != nil *)
+      if cfg_fixed st && disabled st then Some (goto st t (TRet false), [])
+      else
       match loop st with
       | Some l =>
         if disabled st then Some (goto st t (TRet false), []) else cancel_and_join st t l
